@@ -944,13 +944,7 @@ fn signed_classes(c: &Case, r: &Resp, qn: &LName) -> Vec<&'static str> {
     }
     let nsecs = nsecs_of(&r.ns);
     let covering = |x: &LName| nsecs.iter().any(|n| nsec_covers(n, x));
-    if r.rcode == "NXDOMAIN" {
-        let mut w = vec!["*".to_string()];
-        w.extend(dev::closest_encloser(&c.zone, qn));
-        if !covering(&w) {
-            v.push("nsec-no-wildcard-denial");
-        }
-    }
+    // nsec-no-wildcard-denial: repaired in /repo f7c9c53 — no class any more
     if r.rcode == "NOERROR" && expanded_owners(&r.an).iter().any(|x| !covering(x)) {
         v.push(if c.qtype == T_SOA { "soa-query-wildcard-no-proof" } else { "wildcard-expansion-not-proven" });
     }
@@ -1231,7 +1225,7 @@ fn classify(classes: &[&'static str], clause: &str) -> String {
         }
         "referral" => pick(&["cname-into-cut", "nested-cut"]),
         "nodata" | "nxdomain" | "negative-soa" | "answer" | "authority" => pick(&wild),
-        "denial-missing" => pick(&["nsec-no-wildcard-denial", "soa-query-wildcard-no-proof", "wildcard-expansion-not-proven"]),
+        "denial-missing" => pick(&["soa-query-wildcard-no-proof", "wildcard-expansion-not-proven"]),
         _ => String::new(),
     }
 }
